@@ -754,6 +754,804 @@ theorem label_member_fixed {name : Str} (hc : Clean name) (r R k n : Nat) :
     simp only [labelFixed, labelOf, hone, hno, hasis, hlast, hs, if_neg h11]
     simp
 
+/-! ## round 3: the anchored variant, every run id -/
+
+theorem anchored_key_shape {f : Family} {rid : Str} {n : Nat} {key : Str}
+    (h : key ∈ keys .anchored f rid n) : ∃ T, KeyBody T ∧ key = keyOf rid T := by
+  have e : keys .anchored f rid n = keys .fixed f rid n := by cases f <;> rfl
+  rw [e] at h
+  exact fixed_key_shape h
+
+theorem contains_cons_ne {p c : Char} (ps s : Str) (h : p ≠ c) :
+    contains (p :: ps) (c :: s) = contains (p :: ps) s := by
+  simp [contains, isPrefix, h]
+
+/-- no ` Solution (` starts inside `Solution (T)` -/
+theorem contains_solOpen_tail {T : Str} (hT : KeyBody T) :
+    contains sSolOpen (sSolution ++ ' ' :: '(' :: (T ++ [')'])) = false := by
+  have h2 : contains sSolOpen (T ++ [')']) = false := by
+    apply contains_false_of_head_not_mem
+    simp only [List.mem_append, List.mem_cons, List.not_mem_nil, or_false, not_or]
+    exact ⟨hT.noSpace, by decide⟩
+  simp only [sSolOpen, sSolution, List.cons_append, List.nil_append] at h2 ⊢
+  simp [contains, isPrefix, h2]
+
+theorem beforeLast_solOpen_keyOf (rid : Str) {T : Str} (hT : KeyBody T) :
+    beforeLast sSolOpen (keyOf rid T) = some rid := by
+  have e : keyOf rid T = rid ++ (sSolOpen ++ (T ++ [')'])) := by simp [keyOf]
+  have hb : beforeLast sSolOpen (sSolOpen ++ (T ++ [')'])) = some [] := by
+    apply beforeLast_hit
+    · simp [sSolOpen]
+    · exact isPrefix_append_self _ _
+    · have : (sSolOpen ++ (T ++ [')'])).tail = sSolution ++ ' ' :: '(' :: (T ++ [')']) := by
+        simp [sSolOpen]
+      rw [this]; exact contains_solOpen_tail hT
+  rw [e, beforeLast_append rid hb]; simp
+
+theorem fromLast_solOpen_keyOf (rid : Str) {T : Str} (hT : KeyBody T) :
+    fromLast sSolOpen (keyOf rid T) = sSolOpen ++ T ++ [')'] := by
+  unfold fromLast
+  rw [beforeLast_solOpen_keyOf rid hT]
+  simp [keyOf]
+
+theorem runPart_keyOf (rid : Str) {T : Str} (hT : KeyBody T) : runPartOfKey (keyOf rid T) = some rid :=
+  beforeLast_solOpen_keyOf rid hT
+
+theorem setIdA_keyOf (rid : Str) {T : Str} (hT : KeyBody T) :
+    setIdOfKeyA (keyOf rid T) = rid ++ ' ' :: sSummary := by
+  simp [setIdOfKeyA, runPart_keyOf rid hT]
+
+theorem fileSafeIdA_keyOf (rid : Str) {T : Str} (hT : KeyBody T) :
+    fileSafeIdOfKeyA (keyOf rid T) = slashToUOf (stripSpaces rid) := by
+  simp [fileSafeIdOfKeyA, runPart_keyOf rid hT]
+
+/-! ### labels -/
+
+theorem asIsKey_anchored_eq (f : Family) (rid : Str) : asIsKey .anchored f rid = keyOf rid sAsIs := by
+  cases f <;> simp [asIsKey, sSolAsIs, keyOf]
+
+theorem memberKey_eq_keyOf (rid : Str) (k n : Nat) : memberKey rid k n = keyOf rid (natStr k ++ '/' :: natStr n) := by
+  simp [memberKey, keyOf]
+
+theorem label_asIs_anchored (f : Family) (rid : Str) : labelAnchored (asIsKey .anchored f rid) = sAsIs := by
+  unfold labelAnchored
+  rw [asIsKey_anchored_eq, fromLast_solOpen_keyOf rid keyBody_asIs]
+  decide
+
+theorem label_member_anchored (rid : Str) (k n : Nat) :
+    labelAnchored (memberKey rid k n) =
+      if k = 1 ∧ n = 1 then sOptimised else natStr k ++ sOf ++ natStr n := by
+  unfold labelAnchored
+  rw [memberKey_eq_keyOf, fromLast_solOpen_keyOf rid (keyBody_member k n)]
+  have hc : Clean [] := by decide
+  have := label_member_fixed hc 0 1 k n
+  have e : memberKey (runId [] 0 1) k n = sSolOpen ++ (natStr k ++ '/' :: natStr n) ++ [')'] := by
+    simp [memberKey, runId]
+  rw [e] at this
+  exact this
+
+/-- a labelling that gives `As-Is` to the as-is key and `k-of-n` / `Optimised` to the members is injective on the keys -/
+theorem labels_nodup_of_spec (lab : Str → Str) (v : Variant) (f : Family) (rid : Str) (n : Nat)
+    (h0 : lab (asIsKey v f rid) = sAsIs)
+    (h1 : ∀ k m, lab (memberKey rid k m) = if k = 1 ∧ m = 1 then sOptimised else natStr k ++ sOf ++ natStr m) :
+    ((keys v f rid n).map lab).Nodup := by
+  have hAO : sAsIs ≠ sOptimised := by decide
+  have hAd : ∀ k m : Nat, sAsIs ≠ natStr k ++ sOf ++ natStr m := by
+    intro k m h
+    cases hk : natStr k with
+    | nil => exact natStr_ne_nil k hk
+    | cons d ds =>
+      have hd : d.isDigit = true := digits_natStr k d (by simp [hk])
+      rw [hk] at h
+      simp [sAsIs] at h
+      rw [← h.1] at hd
+      exact absurd hd (by decide)
+  simp only [keys, List.map_cons, List.nodup_cons, h0]
+  cases f with
+  | single =>
+    simp only [memberKeys, List.map_cons, List.map_nil, h1 1 1]
+    simp [hAO]
+  | multi =>
+    simp only [memberKeys, List.map_map]
+    constructor
+    · intro hmem
+      obtain ⟨i, _, hi⟩ := List.mem_map.mp hmem
+      simp only [Function.comp, h1 (i + 1) n] at hi
+      split at hi
+      · exact hAO hi.symm
+      · exact hAd _ _ hi.symm
+    · rw [List.Nodup, List.pairwise_map]
+      refine List.Pairwise.imp_of_mem ?_ (List.nodup_range (n := n))
+      intro i j hi hj hij heq
+      simp only [Function.comp, h1 _ n] at heq
+      have hi' := List.mem_range.mp hi
+      have hj' := List.mem_range.mp hj
+      by_cases hn : n = 1
+      · omega
+      · rw [if_neg (by omega), if_neg (by omega), List.append_assoc, List.append_assoc] at heq
+        have := natStr_inj (List.append_cancel_right heq)
+        omega
+
+theorem slashToUOf_paren (r R : Nat) :
+    slashToUOf (paren (natStr r) (natStr R)) = ['('] ++ natStr r ++ sUOf ++ natStr R ++ [')'] := by
+  unfold paren
+  have h1 := slashToUOf_of_no_slash ((digits_natStr r).not_mem (c := '/') (by decide))
+  have h2 := slashToUOf_of_no_slash ((digits_natStr R).not_mem (c := '/') (by decide))
+  have e : '(' :: natStr r ++ '/' :: natStr R ++ [')'] = ['('] ++ natStr r ++ ['/'] ++ natStr R ++ [')'] := by simp
+  rw [e]
+  simp only [slashToUOf_append, h1, h2]
+  simp [slashToUOf, sUOf]
+
+/-- the file stem of a run id, for every scenario name -/
+theorem rid_fileStemA (name : Str) (r R : Nat) :
+    slashToUOf (stripSpaces (runId name r R)) = runFileStemA name r R := by
+  rw [runId_eq, stripSpaces_append, stripSpaces_ridTail, slashToUOf_append]
+  unfold runFileStemA
+  split
+  · rw [slashToUOf_paren]; simp
+  · simp [slashToUOf]
+
+theorem runFileStemA_inj (name : Str) {r₁ r₂ R : Nat} (hR : R > 1)
+    (h : runFileStemA name r₁ R = runFileStemA name r₂ R) : r₁ = r₂ := by
+  unfold runFileStemA at h
+  rw [if_pos hR, if_pos hR] at h
+  simp only [List.append_assoc] at h
+  have h2 := List.append_cancel_left (List.append_cancel_left h)
+  have h3 : natStr r₁ ++ '_' :: (['o', 'f', '_'] ++ (natStr R ++ [')'])) =
+      natStr r₂ ++ '_' :: (['o', 'f', '_'] ++ (natStr R ++ [')'])) := by simpa [sUOf] using h2
+  exact natStr_inj (append_cons_unique ((digits_natStr r₁).not_mem (by decide))
+    ((digits_natStr r₂).not_mem (by decide)) h3).1
+
+/-! ## lines of a key whose run id holds newlines -/
+
+/-- all lines but the last -/
+def initLines (s : Str) : List Str := (splitLines s).dropLast
+/-- the last line -/
+def lastLine (s : Str) : Str := (splitLines s).getLast?.getD []
+
+theorem splitLines_append_aux (a : Str) : ∃ init last, splitLines a = init ++ [last] ∧
+    ∀ b, '\n' ∉ b → splitLines (a ++ b) = init ++ [last ++ b] := by
+  induction a with
+  | nil => exact ⟨[], [], rfl, fun b hb => by simpa using splitLines_of_no_newline hb⟩
+  | cons c a ih =>
+    obtain ⟨init, last, h1, h2⟩ := ih
+    by_cases hc : c = '\n'
+    · refine ⟨[] :: init, last, by simp [splitLines, hc, h1], fun b hb => ?_⟩
+      simp [splitLines, hc, h2 b hb]
+    · cases init with
+      | nil =>
+        refine ⟨[], c :: last, by simp [splitLines, hc, h1], fun b hb => ?_⟩
+        simp [splitLines, hc, h2 b hb]
+      | cons i is =>
+        refine ⟨(c :: i) :: is, last, by simp [splitLines, hc, h1], fun b hb => ?_⟩
+        simp [splitLines, hc, h2 b hb]
+
+theorem splitLines_eq (a : Str) : splitLines a = initLines a ++ [lastLine a] := by
+  obtain ⟨init, last, h1, _⟩ := splitLines_append_aux a
+  simp [initLines, lastLine, h1]
+
+/-- appending a newline-free string extends the last line -/
+theorem splitLines_append_of_no_newline (a : Str) {b : Str} (hb : '\n' ∉ b) :
+    splitLines (a ++ b) = initLines a ++ [lastLine a ++ b] := by
+  obtain ⟨init, last, h1, h2⟩ := splitLines_append_aux a
+  simp [initLines, lastLine, h1, h2 b hb]
+
+theorem keyTail_no_newline {T : Str} (hT : KeyBody T) : '\n' ∉ sSolOpen ++ (T ++ [')']) := by
+  simp only [List.mem_append, List.mem_cons, List.not_mem_nil, or_false, not_or]
+  exact ⟨by decide, hT.noNewline, by decide⟩
+
+theorem splitLines_keyOf (rid : Str) {T : Str} (hT : KeyBody T) :
+    splitLines (keyOf rid T) = initLines rid ++ [lastLine rid ++ (sSolOpen ++ (T ++ [')']))] := by
+  have e : keyOf rid T = rid ++ (sSolOpen ++ (T ++ [')'])) := by simp [keyOf]
+  rw [e, splitLines_append_of_no_newline rid (keyTail_no_newline hT)]
+
+/-- the greedy group of `(.*) Solution.*` on a line that ends in the Saver's own ` Solution (T)` -/
+theorem beforeLast_spSol_tail (L : Str) {T : Str} (hT : KeyBody T) :
+    beforeLast patSpSol (L ++ (sSolOpen ++ (T ++ [')']))) = some L := by
+  have e : sSolOpen ++ (T ++ [')']) = patSpSol ++ ' ' :: '(' :: (T ++ [')']) := by
+    simp [sSolOpen, patSpSol]
+  have hb : beforeLast patSpSol (patSpSol ++ ' ' :: '(' :: (T ++ [')'])) = some [] := by
+    apply beforeLast_hit
+    · simp [patSpSol]
+    · exact isPrefix_append_self _ _
+    · have : (patSpSol ++ ' ' :: '(' :: (T ++ [')'])).tail = (sSolution ++ [' ']) ++ '(' :: (T ++ [')']) := by
+        simp [patSpSol]
+      rw [this, contains_append_sep (by decide)]
+      have h1 : contains patSpSol (sSolution ++ [' ']) = false := by decide
+      have h2 : contains patSpSol (T ++ [')']) = false := by
+        apply contains_false_of_head_not_mem
+        simp only [List.mem_append, List.mem_cons, List.not_mem_nil, or_false, not_or]
+        exact ⟨hT.noSpace, by decide⟩
+      rw [h1, h2]; rfl
+  rw [e, beforeLast_append L hb]; simp
+
+/-- the JSON set name of a key of ANY run id: taken from the first line of the run id that holds
+` Solution`, else the last line of the run id - the same for every key of the run -/
+theorem jsonSetName_keyOf_all (rid : Str) {T : Str} (hT : KeyBody T) :
+    jsonSetNameOfKey (keyOf rid T) =
+      ((initLines rid).findSome? (beforeLast patSpSol)).or (some (lastLine rid)) := by
+  unfold jsonSetNameOfKey
+  rw [splitLines_keyOf rid hT, List.findSome?_append]
+  simp [beforeLast_spSol_tail _ hT]
+
+/-! ## `<literal>.+\)` on a line that ends in `)`: exact result for every line -/
+
+theorem afterLastClose_concat_close (u : Str) : afterLastClose (u ++ [')']) = some [] := by
+  induction u with
+  | nil => simp [afterLastClose]
+  | cons x u ih => simp [afterLastClose, ih]
+
+theorem length_le_of_isPrefix {pat s : Str} (h : isPrefix pat s = true) : pat.length ≤ s.length := by
+  obtain ⟨t, rfl⟩ := isPrefix_iff.mp h
+  simp
+
+theorem length_le_of_contains {pat s : Str} (h : contains pat s = true) : pat.length ≤ s.length := by
+  induction s with
+  | nil => exact length_le_of_isPrefix (by simpa [contains] using h)
+  | cons c s ih =>
+    simp only [contains, Bool.or_eq_true] at h
+    rcases h with h | h
+    · exact length_le_of_isPrefix h
+    · have := ih h; simp; omega
+
+theorem isPrefix_append_of_le {pat a : Str} (h : pat.length ≤ a.length) (b : Str) :
+    isPrefix pat (a ++ b) = isPrefix pat a := by
+  induction pat generalizing a with
+  | nil => simp [isPrefix]
+  | cons p ps ih =>
+    cases a with
+    | nil => simp at h
+    | cons x a => simp [isPrefix, ih (a := a) (by simpa using h)]
+
+/-- the part of a line before the FIRST occurrence of `pat` (the whole line if there is none) -/
+def cutFirst (pat : Str) : Str → Str
+  | [] => []
+  | c :: t => if isPrefix pat (c :: t) then [] else c :: cutFirst pat t
+
+theorem cutFirst_append_of_contains {pat s : Str} (h : contains pat s = true) (t : Str) :
+    cutFirst pat (s ++ t) = cutFirst pat s := by
+  induction s with
+  | nil =>
+    have : pat = [] := List.eq_nil_of_length_eq_zero (by simpa using length_le_of_contains h)
+    subst this
+    cases t <;> simp [cutFirst, isPrefix]
+  | cons c s ih =>
+    have hl : pat.length ≤ (c :: s).length := length_le_of_contains h
+    have hp := isPrefix_append_of_le hl t
+    simp only [List.cons_append] at hp ⊢
+    rcases Bool.eq_false_or_eq_true (isPrefix pat (c :: s)) with hc | hc
+    · simp [cutFirst, hp, hc]
+    · have hs : contains pat s = true := by simpa [contains, hc] using h
+      simp [cutFirst, hp, hc, ih hs]
+
+/-- a line that holds `pat` and goes on with at least one more character and a final `)`:
+everything from the first `pat` on is replaced -/
+theorem replaceLine_closed (pat rep : Str) {s : Str} (h : contains pat s = true) (x : Char) (u : Str) :
+    replaceLine pat rep (s ++ x :: (u ++ [')'])) = cutFirst pat s ++ rep := by
+  induction s with
+  | nil =>
+    have : pat = [] := List.eq_nil_of_length_eq_zero (by simpa using length_le_of_contains h)
+    subst this
+    simp [replaceLine, isPrefix, cutFirst, afterLastClose_concat_close]
+  | cons c s ih =>
+    have hl : pat.length ≤ (c :: s).length := length_le_of_contains h
+    have hp := isPrefix_append_of_le hl (x :: (u ++ [')']))
+    simp only [List.cons_append] at hp ⊢
+    rcases Bool.eq_false_or_eq_true (isPrefix pat (c :: s)) with hc | hc
+    · rw [replaceLine, if_pos (by rw [hp, hc])]
+      have hd : (c :: (s ++ x :: (u ++ [')']))).drop pat.length =
+          (c :: s).drop pat.length ++ x :: (u ++ [')']) := by
+        rw [← List.cons_append, List.drop_append_of_le_length hl]
+      rw [hd]
+      cases hds : (c :: s).drop pat.length with
+      | nil => simp [afterLastClose_concat_close, cutFirst, hc]
+      | cons y w =>
+        have : w ++ x :: (u ++ [')']) = (w ++ x :: u) ++ [')'] := by simp
+        simp only [List.cons_append, this, afterLastClose_concat_close]
+        simp [cutFirst, hc]
+    · have hs : contains pat s = true := by simpa [contains, hc] using h
+      rw [replaceLine, if_neg (by rw [hp, hc]; simp), ih hs]
+      simp [cutFirst, hc]
+
+theorem contains_append_right_of {pat s : Str} (b : Str) (h : contains pat s = true) :
+    contains pat (s ++ b) = true := by
+  induction s with
+  | nil =>
+    have : pat = [] := List.eq_nil_of_length_eq_zero (by simpa using length_le_of_contains h)
+    subst this
+    cases b <;> simp [contains, isPrefix]
+  | cons c s ih =>
+    simp only [contains, Bool.or_eq_true] at h
+    simp only [List.cons_append, contains, Bool.or_eq_true]
+    rcases h with h | h
+    · left
+      obtain ⟨t, ht⟩ := isPrefix_iff.mp h
+      exact isPrefix_iff.mpr ⟨t ++ b, by rw [← List.cons_append, ht]; simp⟩
+    · right; exact ih h
+
+/-- `Summary.Id` of a key of ANY run id -/
+theorem setId_keyOf_all (rid : Str) {T : Str} (hT : KeyBody T) :
+    setIdOfKey (keyOf rid T) =
+      joinLines ((initLines rid).map (replaceLine patSolSpOpen sSummary) ++
+        [cutFirst patSolSpOpen (lastLine rid ++ sSolOpen) ++ sSummary]) := by
+  obtain ⟨x, t, rfl⟩ : ∃ x t, T = x :: t := by
+    cases T with
+    | nil => exact absurd rfl hT.ne
+    | cons x t => exact ⟨x, t, rfl⟩
+  unfold setIdOfKey replaceAllLines
+  rw [splitLines_keyOf rid hT, List.map_append, List.map_singleton]
+  have e : lastLine rid ++ (sSolOpen ++ (x :: t ++ [')'])) = (lastLine rid ++ sSolOpen) ++ x :: (t ++ [')']) := by
+    simp
+  have hc : contains patSolSpOpen (lastLine rid ++ sSolOpen) = true :=
+    contains_append_left_of _ (by decide)
+  rw [e, replaceLine_closed _ _ hc]
+
+/-- `Summary.FileNameSafeId` of a key of ANY run id -/
+theorem fileSafeId_keyOf_all (rid : Str) {T : Str} (hT : KeyBody T) :
+    fileSafeIdOfKey (keyOf rid T) =
+      slashToUOf (joinLines ((initLines (stripSpaces rid)).map (replaceLine patSolOpen []) ++
+        [cutFirst patSolOpen (lastLine (stripSpaces rid) ++ patSolOpen)])) := by
+  obtain ⟨x, t, rfl⟩ : ∃ x t, T = x :: t := by
+    cases T with
+    | nil => exact absurd rfl hT.ne
+    | cons x t => exact ⟨x, t, rfl⟩
+  unfold fileSafeIdOfKey replaceAllLines
+  rw [stripSpaces_keyOf hT]
+  have hnl : '\n' ∉ sSolution ++ '(' :: (x :: t ++ [')']) := by
+    simp only [List.mem_append, List.mem_cons, List.not_mem_nil, or_false, not_or]
+    have := hT.noNewline
+    simp only [List.mem_cons, not_or] at this
+    exact ⟨by decide, by decide, ⟨this.1, this.2⟩, by decide⟩
+  rw [splitLines_append_of_no_newline _ hnl, List.map_append, List.map_singleton]
+  have e : lastLine (stripSpaces rid) ++ (sSolution ++ '(' :: (x :: t ++ [')'])) =
+      (lastLine (stripSpaces rid) ++ patSolOpen) ++ x :: (t ++ [')']) := by
+    simp [patSolOpen]
+  have hc : contains patSolOpen (lastLine (stripSpaces rid) ++ patSolOpen) = true :=
+    contains_append_left_of _ (by decide)
+  rw [e, replaceLine_closed _ _ hc]
+  simp
+
+/-! ## labels of the D6-D8 code for every run id -/
+
+/-- a character that is neither a digit nor `/` resets the scanner from ANY state; the matches only grow -/
+theorem scanStep_sep_any (st : Scan) (ms : List Str) {c : Char} (hd : c.isDigit = false) (hs : c ≠ '/') :
+    ∃ ms', scanStep (st, ms) c = (.idle, ms ++ ms') := by
+  cases st with
+  | idle => exact ⟨[], by simp [scanStep, hd]⟩
+  | d1 a => exact ⟨[], by simp [scanStep, hd, hs]⟩
+  | slash a => exact ⟨[], by simp [scanStep, hd]⟩
+  | d2 a b => exact ⟨[a ++ '/' :: b], by simp [scanStep, hd]⟩
+
+/-- scanning ` (K/N)` from ANY state ends with the match `K/N` -/
+theorem scanRun_paren_any {K N : Str} (hK : Digits K) (hKne : K ≠ []) (hN : Digits N) (hNne : N ≠ [])
+    (st : Scan) (ms : List Str) :
+    ∃ ms', scanRun (st, ms) (' ' :: paren K N) = (.idle, ms' ++ [K ++ '/' :: N]) := by
+  obtain ⟨ms', h⟩ := scanStep_sep_any st ms (c := ' ') (by decide) (by decide)
+  refine ⟨ms ++ ms', ?_⟩
+  have h2 : scanRun (.idle, ms ++ ms') (' ' :: paren K N) = scanRun (.idle, ms ++ ms') (paren K N) := by
+    rw [scanRun_cons]; simp [scanStep]
+  rw [scanRun_cons, h, ← h2, scanRun_paren hK hKne hN hNne rfl]
+
+/-- the LAST `\d+/\d+` match of `x ++ " (k/n)"` is `k/n`, whatever `x` is -/
+theorem allMatches_last_paren (x : Str) (k n : Nat) :
+    (allMatches (x ++ ' ' :: paren (natStr k) (natStr n))).getLast?.getD [] = natStr k ++ '/' :: natStr n := by
+  rw [allMatches_eq, scanRun_append]
+  obtain ⟨ms', h⟩ := scanRun_paren_any (digits_natStr k) (natStr_ne_nil k) (digits_natStr n) (natStr_ne_nil n)
+    (scanRun (.idle, []) x).1 (scanRun (.idle, []) x).2
+  rw [h]
+  simp [scanFinish]
+
+theorem contains_oneOfOne_paren (k n : Nat) :
+    contains sOneOfOne (paren (natStr k) (natStr n)) = decide (k = 1 ∧ n = 1) := by
+  by_cases h11 : k = 1 ∧ n = 1
+  · obtain ⟨rfl, rfl⟩ := h11; decide
+  · rcases Bool.eq_false_or_eq_true (contains sOneOfOne (paren (natStr k) (natStr n))) with h | h
+    · obtain ⟨e1, e2⟩ := contains_one_paren (digits_natStr k) (digits_natStr n) h
+      rw [← natStr_one] at e1 e2
+      exact absurd ⟨natStr_inj e1, natStr_inj e2⟩ h11
+    · simp [h, h11]
+
+theorem contains_oneOfOne_memberKey (rid : Str) (k n : Nat) :
+    contains sOneOfOne (memberKey rid k n) = (contains sOneOfOne rid || decide (k = 1 ∧ n = 1)) := by
+  rw [memberKey_eq, contains_append_sep (by decide), contains_append_sep (by decide), contains_oneOfOne_paren]
+  have : contains sOneOfOne sSolution = false := by decide
+  rw [this]; rfl
+
+theorem contains_asIs_memberKey (rid : Str) (k n : Nat) :
+    contains sAsIs (memberKey rid k n) = contains sAsIs rid := by
+  rw [memberKey_eq, contains_append_sep (by decide), contains_append_sep (by decide)]
+  have h1 : contains sAsIs sSolution = false := by decide
+  have h2 : contains sAsIs (paren (natStr k) (natStr n)) = false :=
+    contains_false_of_head_not_mem
+      (not_mem_paren (digits_natStr k) (digits_natStr n) (by decide) (by decide) (by decide) (by decide))
+  rw [h1, h2]; simp
+
+theorem asIsKey_fixed_eq (f : Family) (rid : Str) :
+    asIsKey .fixed f rid = rid ++ ' ' :: (sSolution ++ ' ' :: ('(' :: sAsIs ++ [')'])) := by
+  cases f <;> simp [asIsKey, sSolAsIs, sSolOpen]
+
+theorem contains_oneOfOne_asIsKey (f : Family) (rid : Str) :
+    contains sOneOfOne (asIsKey .fixed f rid) = contains sOneOfOne rid := by
+  rw [asIsKey_fixed_eq, contains_append_sep (by decide), contains_append_sep (by decide)]
+  have h1 : contains sOneOfOne sSolution = false := by decide
+  have h2 : contains sOneOfOne ('(' :: sAsIs ++ [')']) = false := by decide
+  rw [h1, h2]; simp
+
+theorem contains_asIs_asIsKey (f : Family) (rid : Str) : contains sAsIs (asIsKey .fixed f rid) = true := by
+  rw [asIsKey_fixed_eq]
+  exact contains_append_left_of _ (by decide)
+
+/-- the as-is row under the D6-D8 code, every run id -/
+theorem label_asIs_fixed_any (f : Family) (rid : Str) :
+    labelFixed (asIsKey .fixed f rid) = if contains sOneOfOne rid then sOptimised else sAsIs := by
+  simp [labelFixed, labelOf, contains_oneOfOne_asIsKey, contains_asIs_asIsKey]
+
+/-- a member row under the D6-D8 code, every run id -/
+theorem label_member_fixed_any (rid : Str) (k n : Nat) :
+    labelFixed (memberKey rid k n) =
+      if contains sOneOfOne rid = true ∨ (k = 1 ∧ n = 1) then sOptimised
+      else if contains sAsIs rid then sAsIs else natStr k ++ sOf ++ natStr n := by
+  have hk := digits_natStr k
+  have hn := digits_natStr n
+  have hlast : (allMatches (memberKey rid k n)).getLast?.getD [] = natStr k ++ '/' :: natStr n := by
+    have e : memberKey rid k n = (rid ++ ' ' :: sSolution) ++ ' ' :: paren (natStr k) (natStr n) := by
+      rw [memberKey_eq]; simp
+    rw [e, allMatches_last_paren]
+  have hs : slashToOf (natStr k ++ '/' :: natStr n) = natStr k ++ sOf ++ natStr n := by
+    have e : natStr k ++ '/' :: natStr n = natStr k ++ (['/'] ++ natStr n) := by simp
+    rw [e, slashToOf_append, slashToOf_append, slashToOf_of_no_slash (hk.not_mem (by decide)),
+      slashToOf_of_no_slash (hn.not_mem (by decide))]
+    simp [slashToOf]
+  simp only [labelFixed, labelOf, contains_oneOfOne_memberKey, contains_asIs_memberKey, hlast, hs]
+  simp
+
+theorem contains_runId_of_paren_false {pat : Str} (hsp : ' ' ∉ pat) (name : Str) (r R : Nat)
+    (hp : R > 1 → contains pat (paren (natStr r) (natStr R)) = false) :
+    contains pat (runId name r R) = contains pat name := by
+  rw [runId_eq]; unfold ridTail
+  split
+  · rename_i hR
+    rw [contains_append_sep hsp, hp hR]; simp
+  · simp
+
+/-- the run's own ` (r/R)` (R > 1) never adds an `As-Is` or a `(1/1)` -/
+theorem contains_asIs_runId (name : Str) (r R : Nat) : contains sAsIs (runId name r R) = contains sAsIs name :=
+  contains_runId_of_paren_false (by decide) name r R (fun _ => contains_false_of_head_not_mem
+    (not_mem_paren (digits_natStr r) (digits_natStr R) (by decide) (by decide) (by decide) (by decide)))
+
+theorem contains_oneOfOne_runId (name : Str) (r R : Nat) :
+    contains sOneOfOne (runId name r R) = contains sOneOfOne name :=
+  contains_runId_of_paren_false (by decide) name r R (fun hR => by
+    rw [contains_oneOfOne_paren]; simp; omega)
+
+/-- the first three keys of a set of at least two -/
+theorem keys_multi_succ_succ (v : Variant) (rid : Str) (m : Nat) :
+    ∃ rest, keys v .multi rid (m + 2) =
+      asIsKey v .multi rid :: memberKey rid 1 (m + 2) :: memberKey rid 2 (m + 2) :: rest := by
+  refine ⟨((List.range m).map (· + 2)).map (fun i => memberKey rid (i + 1) (m + 2)), ?_⟩
+  simp only [keys, memberKeys]
+  rw [List.range_succ_eq_map, List.range_succ_eq_map]
+  simp [List.map_map, Function.comp_def]
+
+/-! ## `Summary.FileNameSafeId` of the D6-D8 code for the keys of run r of R > 1, every scenario name -/
+
+theorem initLines_append_of_no_newline (a : Str) {b : Str} (hb : '\n' ∉ b) : initLines (a ++ b) = initLines a := by
+  simp [initLines, splitLines_append_of_no_newline a hb]
+
+theorem lastLine_append_of_no_newline (a : Str) {b : Str} (hb : '\n' ∉ b) :
+    lastLine (a ++ b) = lastLine a ++ b := by
+  simp [lastLine, splitLines_append_of_no_newline a hb]
+
+theorem lastLine_of_no_newline {s : Str} (h : '\n' ∉ s) : lastLine s = s := by
+  simp [lastLine, splitLines_of_no_newline h]
+
+theorem initLines_of_no_newline {s : Str} (h : '\n' ∉ s) : initLines s = [] := by
+  simp [initLines, splitLines_of_no_newline h]
+
+theorem joinLines_cons_of_ne (l : Str) {ls : List Str} (h : ls ≠ []) :
+    joinLines (l :: ls) = l ++ '\n' :: joinLines ls := by
+  cases ls with
+  | nil => exact absurd rfl h
+  | cons y ys => rfl
+
+theorem joinLines_concat (A : List Str) (x : Str) :
+    joinLines (A ++ [x]) = A.flatMap (· ++ ['\n']) ++ x := by
+  induction A with
+  | nil => simp [joinLines]
+  | cons a A ih =>
+    rw [List.cons_append, joinLines_cons_of_ne a (by simp), ih]
+    simp
+
+/-- a literal that ends in its only `c` cannot straddle a `c` of the text -/
+theorem isPrefix_append_last {q : Str} {c : Char} (hc : c ∉ q) (a b : Str) :
+    isPrefix (q ++ [c]) (a ++ c :: b) = isPrefix (q ++ [c]) (a ++ [c]) := by
+  induction q generalizing a with
+  | nil => cases a <;> simp [isPrefix]
+  | cons p ps ih =>
+    have hp : p ≠ c := fun e => hc (by simp [e])
+    have hps : c ∉ ps := fun e => hc (by simp [e])
+    have hpc : (p == c) = false := by simp [hp]
+    cases a with
+    | nil => simp [isPrefix, hpc]
+    | cons x a => simp [isPrefix, ih hps]
+
+theorem contains_append_last {q : Str} {c : Char} (hc : c ∉ q) (a b : Str) :
+    contains (q ++ [c]) (a ++ c :: b) = (contains (q ++ [c]) (a ++ [c]) || contains (q ++ [c]) b) := by
+  induction a with
+  | nil =>
+    have h1 := isPrefix_append_last hc [] b
+    simp only [List.nil_append] at h1
+    have h2 : isPrefix (q ++ [c]) [] = false := by cases q <;> simp [isPrefix]
+    simp [contains, h1, h2]
+  | cons x a ih =>
+    have h1 := isPrefix_append_last hc (x :: a) b
+    simp only [List.cons_append] at h1 ⊢
+    simp [contains, h1, ih, Bool.or_assoc]
+
+theorem cutFirst_skip {q : Str} {c : Char} (hc : c ∉ q) {a : Str}
+    (hn : contains (q ++ [c]) a = false) (w : Str) :
+    cutFirst (q ++ [c]) (a ++ (q ++ c :: w)) = a := by
+  induction a with
+  | nil =>
+    have hp : isPrefix (q ++ [c]) (q ++ c :: w) = true := isPrefix_iff.mpr ⟨w, by simp⟩
+    cases hq : q ++ c :: w with
+    | nil => rfl
+    | cons y ys => rw [hq] at hp; simp [cutFirst, hp]
+  | cons x a ih =>
+    have h1 : isPrefix (q ++ [c]) ((x :: a) ++ (q ++ c :: w)) = false :=
+      isPrefix_overlap_false hc (by simp) hn w
+    have h2 := contains_tail_false hn
+    simp only [List.cons_append] at h1 ⊢
+    rw [cutFirst, if_neg (by simp [h1]), ih h2]
+
+theorem paren_no_newline (r R : Nat) : '\n' ∉ paren (natStr r) (natStr R) :=
+  not_mem_paren (digits_natStr r) (digits_natStr R) (by decide) (by decide) (by decide) (by decide)
+
+theorem stripSpaces_runId (name : Str) (r R : Nat) (hR : R > 1) :
+    stripSpaces (runId name r R) = stripSpaces name ++ paren (natStr r) (natStr R) := by
+  rw [runId_eq, stripSpaces_append, stripSpaces_ridTail, if_pos hR]
+
+/-- the blank-free last line of the name (with the `(` that follows it) holds `Solution(`:
+the run's own `(r/R)` is swallowed by the replacement, the result does not depend on `r` -/
+theorem fileSafeId_fixed_run_hit (name : Str) (r R : Nat) (hR : R > 1) {T : Str} (hT : KeyBody T)
+    (h : contains patSolOpen (lastLine (stripSpaces name) ++ ['(']) = true) :
+    fileSafeIdOfKey (keyOf (runId name r R) T) =
+      slashToUOf (joinLines ((initLines (stripSpaces name)).map (replaceLine patSolOpen []) ++
+        [cutFirst patSolOpen (lastLine (stripSpaces name) ++ ['('])])) := by
+  rw [fileSafeId_keyOf_all _ hT, stripSpaces_runId name r R hR,
+    initLines_append_of_no_newline _ (paren_no_newline r R),
+    lastLine_append_of_no_newline _ (paren_no_newline r R)]
+  have e : lastLine (stripSpaces name) ++ paren (natStr r) (natStr R) ++ patSolOpen =
+      (lastLine (stripSpaces name) ++ ['(']) ++ (natStr r ++ '/' :: natStr R ++ [')'] ++ patSolOpen) := by
+    simp [paren]
+  rw [e, cutFirst_append_of_contains h]
+
+/-- it does not: the replacement starts at the Saver's own `Solution(`, the run's `(r_of_R)` survives -/
+theorem fileSafeId_fixed_run_miss (name : Str) (r R : Nat) (hR : R > 1) {T : Str} (hT : KeyBody T)
+    (h : contains patSolOpen (lastLine (stripSpaces name) ++ ['(']) = false) :
+    fileSafeIdOfKey (keyOf (runId name r R) T) =
+      slashToUOf (joinLines ((initLines (stripSpaces name)).map (replaceLine patSolOpen []) ++
+        [lastLine (stripSpaces name)])) ++ (['('] ++ natStr r ++ sUOf ++ natStr R ++ [')']) := by
+  rw [fileSafeId_keyOf_all _ hT, stripSpaces_runId name r R hR,
+    initLines_append_of_no_newline _ (paren_no_newline r R),
+    lastLine_append_of_no_newline _ (paren_no_newline r R)]
+  have hn : contains (sSolution ++ ['(']) (lastLine (stripSpaces name) ++ paren (natStr r) (natStr R)) = false := by
+    unfold paren
+    rw [List.cons_append, List.cons_append, contains_append_last (by decide)]
+    have h1 : contains (sSolution ++ ['(']) (natStr r ++ '/' :: natStr R ++ [')']) = false :=
+      contains_false_of_head_not_mem
+        (not_mem_body (digits_natStr r) (digits_natStr R) (by decide) (by decide) (by decide))
+    have h' : contains (sSolution ++ ['(']) (lastLine (stripSpaces name) ++ ['(']) = false := h
+    rw [h1, h']; rfl
+  have e : lastLine (stripSpaces name) ++ paren (natStr r) (natStr R) ++ patSolOpen =
+      (lastLine (stripSpaces name) ++ paren (natStr r) (natStr R)) ++ (sSolution ++ '(' :: []) := by
+    simp [patSolOpen]
+  have ep : patSolOpen = sSolution ++ ['('] := rfl
+  rw [e, ep, cutFirst_skip (by decide) hn]
+  rw [joinLines_concat, joinLines_concat, slashToUOf_append, slashToUOf_append, slashToUOf_append,
+    slashToUOf_paren]
+  simp
+
+theorem runSuffix_inj {r₁ r₂ R : Nat}
+    (h : ['('] ++ natStr r₁ ++ sUOf ++ natStr R ++ [')'] = ['('] ++ natStr r₂ ++ sUOf ++ natStr R ++ [')']) :
+    r₁ = r₂ := by
+  simp only [List.append_assoc] at h
+  have h2 := List.append_cancel_left h
+  have h3 : natStr r₁ ++ '_' :: (['o', 'f', '_'] ++ (natStr R ++ [')'])) =
+      natStr r₂ ++ '_' :: (['o', 'f', '_'] ++ (natStr R ++ [')'])) := by simpa [sUOf] using h2
+  exact natStr_inj (append_cons_unique ((digits_natStr r₁).not_mem (by decide))
+    ((digits_natStr r₂).not_mem (by decide)) h3).1
+
+/-- EXACTLY when the D6-D8 code gives two runs of one scenario different summary files -/
+theorem fileSafeId_fixed_runs_differ_iff (name : Str) {r₁ r₂ R : Nat} (hR : R > 1) (hr : r₁ ≠ r₂)
+    {T₁ T₂ : Str} (hT₁ : KeyBody T₁) (hT₂ : KeyBody T₂) :
+    fileSafeIdOfKey (keyOf (runId name r₁ R) T₁) ≠ fileSafeIdOfKey (keyOf (runId name r₂ R) T₂) ↔
+      contains patSolOpen (lastLine (stripSpaces name) ++ ['(']) = false := by
+  rcases Bool.eq_false_or_eq_true (contains patSolOpen (lastLine (stripSpaces name) ++ ['('])) with h | h
+  · rw [fileSafeId_fixed_run_hit name r₁ R hR hT₁ h, fileSafeId_fixed_run_hit name r₂ R hR hT₂ h]
+    simp [h]
+  · rw [fileSafeId_fixed_run_miss name r₁ R hR hT₁ h, fileSafeId_fixed_run_miss name r₂ R hR hT₂ h]
+    simp only [h, iff_true]
+    exact fun e => hr (runSuffix_inj (List.append_cancel_left e))
+
+/-! ## names of the detail files -/
+
+theorem append_cons_unique_right {c : Char} {l₁ l₂ r₁ r₂ : Str} (h₁ : c ∉ r₁) (h₂ : c ∉ r₂)
+    (h : l₁ ++ c :: r₁ = l₂ ++ c :: r₂) : l₁ = l₂ ∧ r₁ = r₂ := by
+  have h' : r₁.reverse ++ c :: l₁.reverse = r₂.reverse ++ c :: l₂.reverse := by
+    have := congrArg List.reverse h
+    simpa using this
+  have := append_cons_unique (by simpa using h₁) (by simpa using h₂) h'
+  exact ⟨List.reverse_inj.mp this.2, List.reverse_inj.mp this.1⟩
+
+/-- what the Saver puts between `Solution (` and `)`: `As-Is` or `k/n` -/
+def KeyBodyS (T : Str) : Prop := T = sAsIs ∨ ∃ k m : Nat, T = natStr k ++ '/' :: natStr m
+
+theorem KeyBodyS.keyBody {T : Str} (h : KeyBodyS T) : KeyBody T := by
+  rcases h with rfl | ⟨k, m, rfl⟩
+  · exact keyBody_asIs
+  · exact keyBody_member k m
+
+theorem anchored_key_shapeS {f : Family} {rid : Str} {n : Nat} {key : Str}
+    (h : key ∈ keys .anchored f rid n) : ∃ T, KeyBodyS T ∧ key = keyOf rid T := by
+  simp only [keys, List.mem_cons] at h
+  rcases h with h | h
+  · exact ⟨sAsIs, Or.inl rfl, by rw [h, asIsKey_anchored_eq]⟩
+  · cases f with
+    | single =>
+      simp only [memberKeys, List.mem_singleton] at h
+      exact ⟨_, Or.inr ⟨1, 1, rfl⟩, by rw [h, memberKey_eq_keyOf]⟩
+    | multi =>
+      simp only [memberKeys, List.mem_map, List.mem_range] at h
+      obtain ⟨i, _, rfl⟩ := h
+      exact ⟨_, Or.inr ⟨i + 1, n, rfl⟩, by rw [memberKey_eq_keyOf]⟩
+
+theorem slashToUOf_member (k m : Nat) :
+    slashToUOf (natStr k ++ '/' :: natStr m) = natStr k ++ '_' :: (['o', 'f', '_'] ++ natStr m) := by
+  have e : natStr k ++ '/' :: natStr m = natStr k ++ (['/'] ++ natStr m) := by simp
+  rw [e, slashToUOf_append, slashToUOf_append,
+    slashToUOf_of_no_slash ((digits_natStr k).not_mem (by decide)),
+    slashToUOf_of_no_slash ((digits_natStr m).not_mem (by decide))]
+  simp [slashToUOf, sUOf]
+
+theorem slashToUOf_keyBody_inj {T₁ T₂ : Str} (h₁ : KeyBodyS T₁) (h₂ : KeyBodyS T₂)
+    (h : slashToUOf T₁ = slashToUOf T₂) : T₁ = T₂ := by
+  have hA : slashToUOf sAsIs = sAsIs := by decide
+  have hne : ∀ k m : Nat, sAsIs ≠ natStr k ++ '_' :: (['o', 'f', '_'] ++ natStr m) := by
+    intro k m h
+    cases hk : natStr k with
+    | nil => exact natStr_ne_nil k hk
+    | cons d ds =>
+      have hd : d.isDigit = true := digits_natStr k d (by simp [hk])
+      rw [hk] at h
+      simp [sAsIs] at h
+      rw [← h.1] at hd
+      exact absurd hd (by decide)
+  rcases h₁ with rfl | ⟨k₁, m₁, rfl⟩ <;> rcases h₂ with rfl | ⟨k₂, m₂, rfl⟩
+  · rfl
+  · rw [hA, slashToUOf_member] at h; exact absurd h (hne _ _)
+  · rw [hA, slashToUOf_member] at h; exact absurd h.symm (hne _ _)
+  · rw [slashToUOf_member, slashToUOf_member] at h
+    have := append_cons_unique ((digits_natStr k₁).not_mem (by decide))
+      ((digits_natStr k₂).not_mem (by decide)) h
+    have e1 := natStr_inj this.1
+    have e2 := natStr_inj (List.append_cancel_left this.2)
+    rw [e1, e2]
+
+/-- `Solution.FileNameSafeId` of a key: it keeps the closing `)` -/
+theorem solutionFileSafeId_keyOf (rid : Str) {T : Str} (hT : KeyBody T) :
+    solutionFileSafeId (keyOf rid T) =
+      (slashToUOf (stripSpaces rid) ++ (sSolution ++ '(' :: slashToUOf T)) ++ [')'] := by
+  unfold solutionFileSafeId
+  rw [stripSpaces_keyOf hT]
+  have e : stripSpaces rid ++ (sSolution ++ '(' :: (T ++ [')'])) =
+      stripSpaces rid ++ ((sSolution ++ ['(']) ++ (T ++ [')'])) := by simp
+  have h1 : slashToUOf sSolution = sSolution := by decide
+  have h1' : slashToUOf ['('] = ['('] := by decide
+  have h2 : slashToUOf [')'] = [')'] := by decide
+  rw [e]
+  simp only [slashToUOf_append, h1, h1', h2]
+  simp
+
+/-- the endings of the detail files; none holds a `)` -/
+def detailSuffixes (ot : OutputType) : List Str :=
+  match ot with
+  | .csv => ["-ManagementActions.csv".toList, "-NameMappedVariables.csv".toList]
+  | .json => [ext .json]
+
+theorem detailFileNames_eq (ot : OutputType) (id : Str) :
+    detailFileNames ot id = (detailSuffixes ot).map (solutionFileSafeId id ++ ·) := by
+  cases ot <;> rfl
+
+theorem detailSuffix_no_close {ot : OutputType} {s : Str} (h : s ∈ detailSuffixes ot) : ')' ∉ s := by
+  cases ot <;> simp [detailSuffixes] at h
+  · rcases h with rfl | rfl <;> decide
+  · subst h; decide
+
+theorem mem_detailFileNames_keyOf {ot : OutputType} {rid T x : Str} (hT : KeyBody T)
+    (hx : x ∈ detailFileNames ot (keyOf rid T)) : ∃ s ∈ detailSuffixes ot,
+      x = (slashToUOf (stripSpaces rid) ++ (sSolution ++ '(' :: slashToUOf T)) ++ ')' :: s := by
+  rw [detailFileNames_eq, List.mem_map] at hx
+  obtain ⟨s, hs, rfl⟩ := hx
+  exact ⟨s, hs, by rw [solutionFileSafeId_keyOf rid hT]; simp⟩
+
+/-- a name that two solutions' detail files share pins down the blank-free, slash-free id -/
+theorem detail_common {ot₁ ot₂ : OutputType} {rid₁ rid₂ T₁ T₂ x : Str} (hT₁ : KeyBody T₁) (hT₂ : KeyBody T₂)
+    (h₁ : x ∈ detailFileNames ot₁ (keyOf rid₁ T₁)) (h₂ : x ∈ detailFileNames ot₂ (keyOf rid₂ T₂)) :
+    slashToUOf (stripSpaces rid₁) ++ (sSolution ++ '(' :: slashToUOf T₁) =
+      slashToUOf (stripSpaces rid₂) ++ (sSolution ++ '(' :: slashToUOf T₂) := by
+  obtain ⟨s₁, hs₁, e₁⟩ := mem_detailFileNames_keyOf hT₁ h₁
+  obtain ⟨s₂, hs₂, e₂⟩ := mem_detailFileNames_keyOf hT₂ h₂
+  exact (append_cons_unique_right (detailSuffix_no_close hs₁) (detailSuffix_no_close hs₂) (e₁.symm.trans e₂)).1
+
+theorem detail_disjoint_same_run {f : Family} {rid : Str} {n : Nat} {k₁ k₂ : Str}
+    (h₁ : k₁ ∈ keys .anchored f rid n) (h₂ : k₂ ∈ keys .anchored f rid n) (hne : k₁ ≠ k₂)
+    (ot₁ ot₂ : OutputType) (x : Str) (hx₁ : x ∈ detailFileNames ot₁ k₁) (hx₂ : x ∈ detailFileNames ot₂ k₂) :
+    False := by
+  obtain ⟨T₁, hT₁, rfl⟩ := anchored_key_shapeS h₁
+  obtain ⟨T₂, hT₂, rfl⟩ := anchored_key_shapeS h₂
+  have h := detail_common hT₁.keyBody hT₂.keyBody hx₁ hx₂
+  have h' := List.append_cancel_left (List.append_cancel_left h)
+  simp only [List.cons.injEq, true_and] at h'
+  exact hne (by rw [slashToUOf_keyBody_inj hT₁ hT₂ h'])
+
+theorem detail_disjoint_two_runs (name : Str) {r₁ r₂ R : Nat} (hR : R > 1) (hr : r₁ ≠ r₂)
+    {f₁ f₂ : Family} {n₁ n₂ : Nat} {k₁ k₂ : Str}
+    (h₁ : k₁ ∈ keys .anchored f₁ (runId name r₁ R) n₁) (h₂ : k₂ ∈ keys .anchored f₂ (runId name r₂ R) n₂)
+    (ot₁ ot₂ : OutputType) (x : Str) (hx₁ : x ∈ detailFileNames ot₁ k₁) (hx₂ : x ∈ detailFileNames ot₂ k₂) :
+    False := by
+  obtain ⟨T₁, hT₁, rfl⟩ := anchored_key_shapeS h₁
+  obtain ⟨T₂, hT₂, rfl⟩ := anchored_key_shapeS h₂
+  have h := detail_common hT₁.keyBody hT₂.keyBody hx₁ hx₂
+  rw [rid_fileStemA, rid_fileStemA] at h
+  unfold runFileStemA at h
+  rw [if_pos hR, if_pos hR] at h
+  simp only [List.append_assoc] at h
+  have h2 := List.append_cancel_left (List.append_cancel_left h)
+  have h3 : natStr r₁ ++ '_' :: (['o', 'f', '_'] ++ (natStr R ++ ([')'] ++ (sSolution ++ '(' :: slashToUOf T₁)))) =
+      natStr r₂ ++ '_' :: (['o', 'f', '_'] ++ (natStr R ++ ([')'] ++ (sSolution ++ '(' :: slashToUOf T₂)))) := by
+    simpa [sUOf] using h2
+  exact hr (natStr_inj (append_cons_unique ((digits_natStr r₁).not_mem (by decide))
+    ((digits_natStr r₂).not_mem (by decide)) h3).1)
+
+theorem detailFileNames_nodup (ot : OutputType) (id : Str) : (detailFileNames ot id).Nodup := by
+  cases ot
+  · simp only [detailFileNames, List.nodup_cons, List.mem_singleton, List.not_mem_nil, not_false_eq_true,
+      List.nodup_nil, and_true]
+    intro h
+    exact absurd (List.append_cancel_left h) (by decide)
+  · simp [detailFileNames]
+
+/-- the last six characters tell a summary file from a detail file -/
+theorem summaryName_last6 (X : Str) (ot : OutputType) :
+    ∃ A, ∃ s ∈ ["ry.csv".toList, "y.json".toList], s.length = 6 ∧ X ++ sDashSummary ++ ext ot = A ++ s := by
+  cases ot
+  · exact ⟨X ++ "-Summa".toList, "ry.csv".toList, by simp, by decide, by simp [sDashSummary, sSummary, ext]⟩
+  · exact ⟨X ++ "-Summar".toList, "y.json".toList, by simp, by decide, by simp [sDashSummary, sSummary, ext]⟩
+
+theorem detailName_last6 {ot : OutputType} {id Q x : Str} (hid : solutionFileSafeId id = Q ++ [')'])
+    (hx : x ∈ detailFileNames ot id) :
+    ∃ A, ∃ s ∈ ["ns.csv".toList, "es.csv".toList, ").json".toList], s.length = 6 ∧ x = A ++ s := by
+  cases ot
+  · simp only [detailFileNames, hid, List.mem_cons, List.not_mem_nil, or_false] at hx
+    rcases hx with rfl | rfl
+    · exact ⟨Q ++ ")-ManagementActio".toList, "ns.csv".toList, by simp, by decide, by simp⟩
+    · exact ⟨Q ++ ")-NameMappedVariabl".toList, "es.csv".toList, by simp, by decide, by simp⟩
+  · simp only [detailFileNames, hid, List.mem_singleton] at hx
+    subst hx
+    exact ⟨Q, ").json".toList, by simp, by decide, by simp [ext]⟩
+
+/-- no detail file of a solution whose blank-free id ends in `)` has the name of a summary file -/
+theorem detail_ne_summary {ot : OutputType} {id Q : Str} (hid : solutionFileSafeId id = Q ++ [')'])
+    (X : Str) (ot' : OutputType) : X ++ sDashSummary ++ ext ot' ∉ detailFileNames ot id := by
+  intro hx
+  obtain ⟨A, s, hs, hl, e⟩ := detailName_last6 hid hx
+  obtain ⟨A', s', hs', hl', e'⟩ := summaryName_last6 X ot'
+  have := List.append_inj_right' (e'.symm.trans e) (by rw [hl, hl'])
+  subst this
+  simp only [List.mem_cons, List.not_mem_nil, or_false] at hs hs'
+  rcases hs' with h | h <;> rw [h] at hs <;> revert hs <;> decide
+
 end Crem.Naming
 
 namespace Crem.SummaryCsv
@@ -793,6 +1591,7 @@ theorem asIsKey_ne_memberKey (v : Variant) (f : Family) (rid : Str) (k n : Nat) 
   | multi =>
     cases v with
     | fixed => exact hfixed (by simpa [asIsKey] using h)
+    | anchored => exact hfixed (by simpa [asIsKey] using h)
     | current =>
       have e2 : memberKey rid k n = rid ++ (sSolOpen ++ (natStr k ++ '/' :: (natStr n ++ [')']))) := by
         simp [memberKey]
